@@ -4,6 +4,9 @@ import Blue.Model.Concat
 import Blue.Model.Pruning
 import Blue.Model.Lazy
 import Blue.Model.AsIs
+import Blue.Model.MergingC
+import Blue.Model.PruningC
+import Blue.Model.BoundsC
 import Blue.Driver.Util
 /-! Driver verbs for the cursor combinators (property C11).
 
@@ -12,6 +15,7 @@ import Blue.Driver.Util
     `cur bounds <prev:new|old> <lo> <hi> T <table> X <ops>`      bound = `u` | `i<hex>` | `e<hex>`
     `cur prune <timestamp> T <table> X <ops>`
     `cur lazy T <table> X <ops>`
+    `cur stack <timestamp> <lo> <hi> T <tables> X <ops>`         the scan stack Bounds(Pruning(Merging[tables]))
 
     A table is a run of entry tokens `keyhex@ts=valuehex` / `keyhex@ts=tombstone`, optionally led by
     `p<k>` (the child cursor's position before it is handed to the combinator), and closed by `/`.
@@ -191,6 +195,18 @@ def handle : List String → String
       let cfg := pruneCfg ts
       answer (pruneStep cfg (c.xs.length + 2)) Pruning.kv (Pruning.new c) ops
     | _, _ => "bad-op"
+  | "stack" :: t :: lo :: hi :: body =>
+    -- the term of `scan_spec` / `scan_spec_dups` over reference children; the fuel is far above the
+    -- bound the theorems ask for (entries + 2)
+    match t.toNat?, parseBd lo, parseBd hi, parseBody body with
+    | some ts, some l, some h, some (cs, ops) =>
+      let n := 4 * (cs.map (·.xs.length)).foldl (· + ·) 0 + 8
+      let MC := MergingC.cur (RefCur Ent) entLt
+      let PC := PruningC.cur MC (pruneCfg ts) n
+      let BC := BoundsC.cur PC (mkCfg l h) n
+      let s0 : BC.σ := BoundsC.new PC (mkCfg l h) (PruningC.new MC (MergingC.new (RefCur Ent) entLt cs))
+      answer (fun s op => let s' := BC.step s op; if BC.ok s' then some s' else none) BC.kv s0 ops
+    | _, _, _, _ => "bad-op"
   | "lazy" :: body =>
     match parseBody body with
     | some ([c], ops) => answer (fun l op => some (Lazy.step l op)) Lazy.kv (⟨c.xs, .first⟩ : Lazy Ent) ops
